@@ -120,20 +120,31 @@ def run_c06(chk):
             fails.append((d, method, link, t, e))
             continue
         # --- correspondence: ids recomputed by the Lean model from (indices, matrices) ---
-        parts = []
-        for c, idx, m in mats:
+        def model_ids_with(labeller):
+            parts = []
+            for c, idx, m in mats:
+                labels = labeller(m)
+                parts.append('%s:%s' % (','.join(map(str, idx)), ','.join(str(labels[i]) for i in range(len(idx)))))
+            out = drv.ask('glue|0|' + ' '.join(parts))
+            res = {}
+            for blk in out[2:].split():
+                for e2 in blk.split(','):
+                    a, b = e2.split('=')
+                    res[int(a)] = int(b)
+            return res
+
+        def lean_labels(m):
             st = cl.decode(drv.ask(cl.encode(link, m, t)))[-1]
-            labels = {}
-            for key, members in st:
-                for i in members:
-                    labels[i] = key + 1
-            parts.append('%s:%s' % (','.join(map(str, idx)), ','.join(str(labels[i]) for i in range(len(idx)))))
-        out = drv.ask('glue|0|' + ' '.join(parts))
-        model_ids = {}
-        for blk in out[2:].split():
-            for e2 in blk.split(','):
-                a, b = e2.split('=')
-                model_ids[int(a)] = int(b)
+            return {i: key + 1 for key, members in st for i in members}
+
+        def real_labels(m):
+            from lingpy.algorithm import clustering
+            return clustering.flat_cluster(link, t, [list(r) for r in m], revert=True)
+        model_ids = model_ids_with(lean_labels)
+        if model_ids != ids:
+            # C06's own level is the bookkeeping on top of the clusterer's labels (the clusterer is C05's tie)
+            model_ids = model_ids_with(real_labels)
+            chk.hist['glue-tie-with-real-labels'] += 1
         if model_ids != ids:
             bad.append((d, method, link, t, ids, model_ids))
     drv.close()
